@@ -61,6 +61,17 @@ def check_panel(case, ctx):
     p = pkg.make_panel(case)
     model = case['model']
     name = 'kA[%s,flow=%s]' % (model, case['flow'])
+    pm = case.get('prelude_mach')
+    if pm:
+        # a sweep on one Panel object: a first evaluation at another flight condition (coefficients from Mach number, density, speed)
+        p.beta = None
+        p.Mach, p.rho_air, p.V, p.speed_sound = pm['Mach'], pm['rho'], pm['V'], pm['ainf']
+        p.flow = case['flow']
+        with package(name + '.prelude'):
+            p.calc_kA(silent=True)
+        ctx.label('object:second-flight-condition')
+        if not case['mach_route']:
+            p.Mach = p.rho_air = p.V = p.speed_sound = None
     _set_aero(p, case)
     restrained = _flow_edges_restrained(case)
     r = case.get('r') if model == 'cpanel' else None
@@ -247,6 +258,9 @@ def _aero(draw, case):
     # any unit system: pressure numbers from 1e-14 to 1e3
     case['gamma'] = draw(st.sampled_from([-1., 1.])) * draw(gen.logfl(1e-14, 1e3)) if draw(st.booleans()) else 0.
     case['gamma_none'] = draw(st.booleans())
+    case['prelude_mach'] = None
+    if draw(st.integers(0, 2)) == 0:
+        case['prelude_mach'] = {'Mach': draw(gen.fl(1.1, 4.)), 'rho': draw(gen.fl(0.1, 2.)), 'V': draw(gen.fl(300., 1500.)), 'ainf': draw(gen.fl(250., 400.))}
     case['prelude'] = None
     if draw(st.integers(0, 2)) == 0:
         case['prelude'] = {'beta': round(draw(gen.fl(-1e4, 1e4)), 3), 'gamma': round(draw(gen.fl(-1e3, 1e3)), 3),
